@@ -128,6 +128,10 @@ type Sim struct {
 	// unsure: a get for this query variant could not be classified as initial
 	// load or reset re-fetch; what the gateway caches is undetermined from then on
 	unsure map[*Variant]bool
+	// work-queue bookkeeping for processed()
+	lockedNames map[string]bool
+	lockedSince map[string]int
+	lastIdleCut int
 
 	stopped     bool
 	stallTarget string
@@ -153,6 +157,7 @@ func newSim(cfg *RunCfg) *Sim {
 		sawDerived:       map[*Variant]bool{},
 		deletedByRefetch: map[*Variant]bool{},
 		unsure:           map[*Variant]bool{},
+		lockedSince:      map[string]int{},
 	}
 	s.obsHash = 1469598103934665603
 	return s
@@ -447,7 +452,44 @@ func (s *Sim) settle() {
 	s.mu.Unlock()
 	if idle {
 		s.Cut++
+		// a resource whose query requests have all been answered has nothing
+		// left in its work queue at an idle moment
+		s.mu.Lock()
+		s.lockedNames = map[string]bool{}
+		var reqs []*Req
+		if s.tr != nil {
+			reqs = s.tr.reqs
+		}
+		for _, r := range reqs {
+			if r.Type == "query" && !r.Delivered {
+				s.lockedNames[r.Name] = true
+			}
+		}
+		s.lastIdleCut = s.Cut
+		for n := range s.lockedNames {
+			if _, ok := s.lockedSince[n]; !ok {
+				s.lockedSince[n] = s.Cut
+			}
+		}
+		for n := range s.lockedSince {
+			if !s.lockedNames[n] {
+				delete(s.lockedSince, n)
+			}
+		}
+		s.mu.Unlock()
 	}
+}
+
+// processed: something delivered to the gateway's work queue of resource name
+// at idle-cut index dlvCut has certainly been worked off by now: the gateway
+// has been idle since, at a moment when the queue was not held up by a query
+// event waiting for its answers. Call with s.mu held or from the scheduler.
+func (s *Sim) processed(name string, dlvCut int) bool {
+	free := s.lastIdleCut
+	if since, ok := s.lockedSince[name]; ok {
+		free = since - 1
+	}
+	return free > dlvCut
 }
 
 // record appends a decision to the trace and the observation log.
